@@ -101,10 +101,18 @@ var curRun atomic.Pointer[runInfo]
 func startWatchdog(prop, dir string) {
 	limit := time.Duration(envInt("VERIF_SPIN_S", 30)) * time.Second
 	go func() {
+		var lastProg uint64
+		var lastRun *runInfo
+		lastMove := time.Now()
 		for {
 			time.Sleep(500 * time.Millisecond)
 			ri := curRun.Load()
-			if ri == nil || time.Since(ri.start) < limit {
+			// a spin is a run whose scheduler makes no progress at all (no hand-off, no yield point) for the whole
+			// limit: a run that is merely long, or a loaded machine, keeps moving and is left alone (hard cap: 20 x limit)
+			if p := simrt.Progress.Load(); p != lastProg || ri != lastRun {
+				lastProg, lastRun, lastMove = p, ri, time.Now()
+			}
+			if ri == nil || (time.Since(lastMove) < limit && time.Since(ri.start) < 20*limit) {
 				continue
 			}
 			rf := &ReplayFile{Property: prop, Signature: "work-in-proportion/spin", Message: fmt.Sprintf("run %d did not finish within %v of wall-clock time: a task spins without reaching a yield point", ri.idx, limit), VerifSeed: ri.seed, RunIndex: ri.idx, Scenario: ri.sc, Spin: true}
